@@ -13,6 +13,7 @@ Import ListNotations.
 From GMQ Require Import Broker.Model Proofs.BrokerFrames Proofs.BrokerTags Proofs.BrokerChanInv Proofs.BrokerReady
   Proofs.BrokerConfirm.
 Open Scope N_scope.
+From GMQ Require Import Broker.gen.BrokerGen.
 
 Theorem C05_publish_takes_next_number :
   forall cfg fx s c h ex key mand ch s' evs,
@@ -121,3 +122,12 @@ Theorem C05_ticker_acks_each_queued_number_once :
     exists ch', get_chan (fst (step cfg fx s (LConfirmTick c h))) c h = Some ch' /\ ch_confirmq ch' = [] /\ ch_ctag ch' = ch_ctag ch.
 Proof. exact confirm_tick_acks_queue. Qed.
 Print Assumptions C05_ticker_acks_each_queued_number_once.
+
+(* disciplines of the source that the model's atomic accounting stands on (translator/cmd/broker, every run): the count
+   of confirmations is one critical section, addConfirm and the ticker's swap are under the confirm lock and the ticker
+   leaves a fresh slice behind, a push is one critical section of the queue *)
+Theorem C05_generated_confirm_discipline :
+  confirm_count_is_critical_section = true /\ add_confirm_locked = true /\ confirm_ticker_takes_fresh_slice = true /\
+  push_is_critical_section = true.
+Proof. repeat split; reflexivity. Qed.
+Print Assumptions C05_generated_confirm_discipline.
